@@ -1046,7 +1046,73 @@ def _replay_crash(rp):
 
 
 case_entry = _safe(_case_entry, 'entry')
+# ----------------------------------------------------------------------------- the same call in a pristine process
+_PRC = [0]
+
+
+def _pristine_call(rng, cls, D):
+    """a tightly concentrated scene: the fitted Watson concentration is decided by the trainer's own max_concentration"""
+    K, N = 2, 14
+    protos = crandn(rng, (K, D))
+    protos /= np.linalg.norm(protos, axis=-1, keepdims=True)
+    if cls == 'ComplexWatsonTrainer':
+        y = protos[0][None] * np.exp(2j * np.pi * rng.random((N, 1))) + 0.01 * crandn(rng, (N, D))
+        return dict(y=y, saliency=None, seed=0)
+    lab = np.arange(N) % K
+    y = protos[lab] * np.exp(2j * np.pi * rng.random((N, 1))) + 0.01 * crandn(rng, (N, D))
+    init = 0.9 * np.eye(K)[lab].T + 0.05
+    return dict(data={'y': y}, initialization=init, iterations=2, opts={}, seed=1)
+
+
+def eval_pristine(rp):
+    """this process (which has used many trainers of other configurations by now) against a process that runs only this call"""
+    import os
+    import pickle
+    import subprocess
+    import sys
+    import tempfile
+    rng = np.random.default_rng(rp['argseed'])
+    cls, ctor = rp['cls'], dict(rp['ctor'])
+    D = int(rp['D'])
+    c = _pristine_call(rng, cls, D)
+    freeze(c)
+    label = 'pristine %s ctor=%s D=%d' % (cls, ctor, D)
+    dg = core.digest(cls, rp['argseed'], repr(sorted(ctor.items())), D)
+    # another configuration of the same class and dimension first (so the order of use inside this check does not matter)
+    other = dict(ctor, max_concentration=500.0 if ctor.get('max_concentration') != 500.0 else 100.0)
+    try:
+        _do_fit(_make_trainer(cls, other), cls, c)
+        here = flat_result(_do_fit(_make_trainer(cls, ctor), cls, c))
+    except EXPLICIT as e:
+        return None, None, None, label + ' raised %s' % type(e).__name__, False, dg
+    with tempfile.TemporaryDirectory() as td:
+        fin, fout = os.path.join(td, 'in.pkl'), os.path.join(td, 'out.pkl')
+        pickle.dump((cls, ctor, c), open(fin, 'wb'))
+        pr = subprocess.run([sys.executable, str(core.VERIF / 'harness' / 'pristine.py'), fin, fout], capture_output=True, text=True,
+                            env=dict(os.environ), timeout=300)
+        if pr.returncode != 0 or not os.path.exists(fout):
+            raise RuntimeError('pristine subprocess failed: ' + pr.stderr[-400:])
+        there = pickle.load(open(fout, 'rb'))
+    if [p for p, _ in here] != [p for p, _ in there]:
+        return 'result structure differs from the pristine process', 'pristine:%s' % cls, None, label, False, dg
+    for (pth, x), (_, y) in zip(here, there):
+        if x.shape != y.shape or x.dtype != y.dtype:
+            return '%s: dtype/shape differs from the pristine process' % pth, 'pristine:%s' % cls, None, label, False, dg
+        if x.dtype.kind in 'fc' and x.size:
+            if not np.allclose(x, y, rtol=1e-9, atol=1e-12, equal_nan=True):
+                return ('%s of %s(%s) differs from the same call in a process that did nothing else: %s vs %s' % (
+                    pth, cls, ctor, np.ravel(x)[:3], np.ravel(y)[:3])), 'pristine:%s' % cls, None, label, False, dg
+    return None, None, None, label, True, dg
+
+
+def _case_pristine(cls, argseed, ctor, D):
+    rp = {'fn': 'pristine', 'cls': cls, 'argseed': int(argseed), 'ctor': ctor, 'D': int(D)}
+    fail, key, coq, label, nt, dg = eval_pristine(rp)
+    return Case(label, coq=coq, pred_fail=fail, key=key, nontrivial=nt, digest_=dg, sample={'name': label}, replay=rp, kind='pristine/' + cls)
+
+
 case_history = _safe(_case_history, 'history')
+case_pristine = _safe(_case_pristine, 'pristine')
 case_split = _safe(_case_split, 'split')
 case_rng = _safe(_case_rng, 'rng')
 
@@ -1071,6 +1137,10 @@ def cases(rng, tier):
     for cls in CACHING:
         for dims in ([2, 3, 2], [3, 2, 2]) if q else ([2, 3, 2], [3, 2, 2], [2, 3, 3], [3, 2, 3, 2]):
             out.append(case_history(cls, rng.integers(0, 2 ** 31), dims))
+    # the same call in a process that has done nothing else (state shared between trainer INSTANCES shows only this way)
+    for i in range(4 if q else 12):
+        cls = ['ComplexWatsonTrainer', 'CWMMTrainer'][i % 2]
+        out.append(case_pristine(cls, rng.integers(0, 2 ** 31), {'max_concentration': [37.0, 23.0, 61.0, 150.0][(i // 2) % 4]}, 2 + (i // 2) % 3))
     for n in ([2, 3, 3, 4, 4, 5, 5, 6, 6, 6, 24, 30, 36] if q else [2, 3, 4, 5, 6, 6] * 5 + [7, 8, 9, 10, 11, 12, 13, 14, 15, 16, 17, 18, 19, 20, 20, 24, 30, 36, 40, 48]):
         out.append(case_split(n, rng.integers(0, 2 ** 31)))
     for rep in range(2 if q else 12):
@@ -1107,6 +1177,8 @@ def replay(payload):
         return eval_entry(rp)[0]
     if fn == 'history':
         return eval_history(rp)[0]
+    if fn == 'pristine':
+        return eval_pristine(rp)[0]
     if fn == 'split':
         return eval_split(rp)[0]
     return eval_rng(rp)[0]
